@@ -196,7 +196,7 @@ func (c *Ctx) helperChain() {
 			init, _ := loop.Init.(*ast.AssignStmt)
 			post, _ := loop.Post.(*ast.IncDecStmt)
 			good := init != nil && post != nil && post.Tok == token.INC && fn.Term(init.Rhs[0]).Key() == gf.ConstInt(0).Key() &&
-				fn.Formula(loop.Cond).String() == c.Want(fn, loop.Body.Pos(), "$1 < $2", init.Lhs[0], bound).String()
+				fn.Formula(loop.Cond).Key() == c.Want(fn, loop.Body.Pos(), "$1 < $2", init.Lhs[0], bound).Key()
 			// the only skip is slot membership
 			skip := false
 			start := loop.Body.List[0]
